@@ -22,11 +22,8 @@ fn main() {
         "worker" => {
             let id = &args[2];
             let tier = Tier::parse(&args[3]);
-            let start: usize = args[4].parse().unwrap();
-            let end: usize = args[5].parse().unwrap();
-            let deadline: u64 = args[6].parse().unwrap();
             let check = mc::checks::by_id(id).expect("unknown check");
-            run_worker(check.as_ref(), tier, start, end, deadline);
+            run_worker(check.as_ref(), tier);
         }
         "replay" => {
             let path = args.get(2).expect("replay <file>");
@@ -37,7 +34,7 @@ fn main() {
             let tier = Tier::parse(args.get(3).map(|s| s.as_str()).unwrap_or("quick"));
             let check = mc::checks::by_id(id).expect("unknown check");
             for (i, it) in check.items(tier).iter().enumerate() {
-                println!("{i}\t{it}");
+                println!("{i}\t{}", it["id"]);
             }
         }
         _ => {
